@@ -96,7 +96,8 @@ def root_name(t):
     while True:
         if t[0] in ("var", "param", "lparam"):
             return t[1]
-        if t[0] in ("sub", "store", "mut", "mutsub", "attr", "item"):
+        if t[0] in ("sub", "store", "mut", "mutsub", "attr", "item",
+                    "delitem", "augstore"):
             t = t[1]
             continue
         if t[0] == "phi":
